@@ -144,7 +144,7 @@ fn run_in(case: &C16Case, nu: &mut Nu) -> Result<CaseInfo, Fail> {
     // (context, name) pairs whose failing trigger is in the stream: a handler resuming from
     // head would replay it and stop at once, so such registrations resume from the tail
     let mut boomed: std::collections::BTreeSet<(u8, u8)> = Default::default();
-    let t20 = Duration::from_secs(8);
+    let t20 = Duration::from_secs(30);
 
     let mut do_probe = |nu: &mut Nu, ctx: u8, insts: &Vec<Inst>, active: &BTreeMap<(u8, u8), usize>, probes: &mut Vec<(WFrame, u8, Vec<usize>, Vec<usize>)>| -> Check {
         let p = nu.append("probe", ctxs[ctx as usize], None, None)?;
@@ -162,7 +162,7 @@ fn run_in(case: &C16Case, nu: &mut Nu) -> Result<CaseInfo, Fail> {
                 .filter(|h| !fr.iter().any(|w| meta_of(w, "frame_id").as_deref() == Some(&p.id) && meta_of(w, "handler_id").as_deref() == Some(h)))
                 .collect();
             return Err(life(format!(
-                "frame {} was appended to context {ctx} after the handler(s) {silent:?} had announced .registered, but they never processed it (8 s)",
+                "frame {} was appended to context {ctx} after the handler(s) {silent:?} had announced .registered, but they never processed it (30 s)",
                 p.id
             )));
         }
@@ -216,7 +216,7 @@ fn run_in(case: &C16Case, nu: &mut Nu) -> Result<CaseInfo, Fail> {
                 let want_topic = if valid { format!("{n}.registered") } else { format!("{n}.unregistered") };
                 let (_, ok) = nu.wait(t20, |fr| fr.iter().any(|w| w.topic == want_topic && meta_of(w, "handler_id").as_deref() == Some(&rid)))?;
                 if !ok {
-                    return Err(life(format!("{n}.register {rid} ({kind:?}) was not followed by {want_topic} within 8 s")));
+                    return Err(life(format!("{n}.register {rid} ({kind:?}) was not followed by {want_topic} within 30 s")));
                 }
                 insts.push(Inst {
                     reg,
@@ -253,7 +253,7 @@ fn run_in(case: &C16Case, nu: &mut Nu) -> Result<CaseInfo, Fail> {
                         fr.iter().any(|w| w.topic == format!("{n}.unregistered") && meta_of(w, "handler_id").as_deref() == Some(&id))
                     })?;
                     if !ok {
-                        return Err(life(format!("{n}.unregister was not followed by {n}.unregistered of instance {id} within 8 s")));
+                        return Err(life(format!("{n}.unregister was not followed by {n}.unregistered of instance {id} within 30 s")));
                     }
                     insts[i].stopped_by_error = Some(false);
                     had_stop = true;
@@ -275,7 +275,7 @@ fn run_in(case: &C16Case, nu: &mut Nu) -> Result<CaseInfo, Fail> {
                         fr.iter().any(|w| w.topic == format!("{n}.unregistered") && meta_of(w, "handler_id").as_deref() == Some(&id))
                     })?;
                     if !ok {
-                        return Err(life(format!("the closure of {n} instance {id} failed but {n}.unregistered was not announced within 8 s")));
+                        return Err(life(format!("the closure of {n} instance {id} failed but {n}.unregistered was not announced within 30 s")));
                     }
                     insts[i].stopped_by_error = Some(true);
                     had_stop = true;
@@ -293,7 +293,7 @@ fn run_in(case: &C16Case, nu: &mut Nu) -> Result<CaseInfo, Fail> {
                     })?;
                     if !ok {
                         return Err(life(format!(
-                            "instance {id} of {n} appended {n}.unregister from its own closure but never announced {n}.unregistered (8 s): it does not stop"
+                            "instance {id} of {n} appended {n}.unregister from its own closure but never announced {n}.unregistered (30 s): it does not stop"
                         )));
                     }
                     insts[i].stopped_by_error = Some(false);
